@@ -40,11 +40,11 @@ def server_instances(name, s, s2):
     }[name], egs
 
 
-def build_world(name, s, s2, reject, collect):
+def build_world(name, s, s2, reject, collect, cyclic=0):
     loop = VLoop().install()
     seam = RandomSeam(Choice())
     seam.__enter__()
-    prot = make_sd(loop, timings(CYCLIC_OFFER_DELAY=0, REPETITIONS_MAX=0, SEND_COLLECTION_TIMEOUT=collect))
+    prot = make_sd(loop, timings(CYCLIC_OFFER_DELAY=cyclic, REPETITIONS_MAX=0, SEND_COLLECTION_TIMEOUT=collect))
     log = []
     specs, egs = server_instances(name, s, s2)
     listeners = []
@@ -348,7 +348,10 @@ def part_change(args):
     s, s2, scenario, gap = args
     res = []
     name = "not-started" if scenario == "start-between" else "running"
-    loop, seam, prot, log, listeners, specs, egs = build_world(name, s, s2, scenario == "reject-then-accept", C)
+    bounced = scenario.split("+")[0] in ("announcer-bounced-before", "service-bounced-before", "endpoint-bounced-before")
+    cyclic = 1 if scenario.endswith("+cyclic") else 0  # (bounce scenarios: with instances that offer cyclically, too)
+    scenario = scenario.split("+")[0]
+    loop, seam, prot, log, listeners, specs, egs = build_world(name, s, s2, scenario == "reject-then-accept", C, cyclic)
     try:
         e1_ = (s, 1, 1, 6, 0, 3, 1, 0)
         ent2 = entry_tuple(e1_)
@@ -357,11 +360,32 @@ def part_change(args):
             prot.datagram_received(refcodec.sd_message(5, []), CL, True)  # the sender is known on the multicast channel
             loop.run_until(loop.time() + 4 * C)
             prot.transport.sent.clear()
+        if scenario in ("announcer-bounced-before", "service-bounced-before", "endpoint-bounced-before"):
+            # the instance was stopped and started again with no loop iteration in between, some time ago (gap * 64 s, or
+            # one iteration, ago): it is a running instance like any other
+            if scenario == "announcer-bounced-before":
+                prot.announcer.stop()
+                prot.announcer.start()
+            elif scenario == "endpoint-bounced-before":
+                prot.stop()
+                prot.start()
+            else:
+                inst0 = prot.announcer.announcing_services[0]
+                prot.announcer.stop_announce_service(inst0)
+                prot.announcer.announce_service(inst0)
+            if gap:
+                loop.run_until(loop.time() + gap * 64)
+            else:
+                loop.iterate()
+            prot.transport.sent.clear()
         t0 = loop.time()
         prot.datagram_received(refcodec.sd_message(1, [entry_tuple(e1_)]), CL, False)
         if gap:
             loop.run_until(t0 + gap)
-        if scenario == "reject-then-accept":
+        if scenario in ("announcer-bounced-before", "service-bounced-before", "endpoint-bounced-before"):
+            second["entries"] = []
+            want = [3]
+        elif scenario == "reject-then-accept":
             listeners[0].reject.discard(6)
             want = [0, 3]
         elif scenario == "accept-then-reject":
@@ -399,7 +423,7 @@ def part_change(args):
             for m in refcodec.dec_sd_datagram(d):
                 acks += [(x[5] & 0xFFFF, (x[5] >> 16) & 0xF, x[4], addr, t) for x in m["entries"] if x[0] == "suback"]
         got = [a[2] for a in acks if a[0] == 6 and a[1] == 0]
-        case = dict(change=scenario, gap=gap, sids=(s, s2))
+        case = dict(change=scenario + ("+cyclic" if cyclic else ""), gap=gap, sids=(s, s2))
         if got != want:
             disc = "missing" if len(got) < len(want) else ("extra" if len(got) > len(want) else "verdict")
             res.append(("answer", f"{disc}-{'reboot' if 'reboot' in scenario else 'verdict-changed'}-within-window",
@@ -508,7 +532,10 @@ def check(ctx):
     out2 = core.pmap(part_pairs, pj, 1) + core.pmap(part_shared, pj, 1)
     out2 += core.pmap(part_change, [(s, s2, sc, gap) for sc in ("reject-then-accept", "accept-then-reject", "start-between", "announcer-stopped-right-after",
                                                "service-withdrawn-right-after", "reboot-evidence-subscribe",
-                                               "reboot-evidence-empty", "reboot-evidence-multicast-empty")
+                                               "reboot-evidence-empty", "reboot-evidence-multicast-empty",
+                                               "announcer-bounced-before", "service-bounced-before", "endpoint-bounced-before",
+                                               "announcer-bounced-before+cyclic", "service-bounced-before+cyclic",
+                                               "endpoint-bounced-before+cyclic")
                                     for gap in (0, C / 4, C / 2, C - 2.0 ** -10)], 4)
     out2 += core.pmap(part_neighbours, pj, 1)
     out2 += core.pmap(part_many, [(name, s, s2, col, count) for name in ("running", "stopped") for col in (0, C)
